@@ -913,10 +913,144 @@ func (a *xAnalysis) addState(m map[int][]*xState, b int, s *xState) {
 		}
 		return
 	}
+	if len(m[b]) >= xSoftStates {
+		// many states at one block (forward conditionals that each take away a fixed amount): join with a state that differs
+		// by constants only, through a fresh parameter t in [0, g] (relational join; sound over-approximation)
+		for _, o := range m[b] {
+			if a.paramJoin(o, s) {
+				return
+			}
+		}
+	}
 	m[b] = append(m[b], s)
 	if len(m[b]) > a.res.maxStates {
 		a.res.maxStates = len(m[b])
 	}
+}
+
+const xSoftStates = 120
+
+// paramJoin merges s into o when every register (and the compare operands) of s equals the one of o plus a constant:
+// o.reg + (c/g) t with a fresh 0 <= t <= g, g = gcd of the constants. The facts kept are those of either state that, shifted
+// by a multiple of t, hold at both ends (t = 0: o, t = g: s); facts are affine, so they hold in between.
+func (a *xAnalysis) paramJoin(o, s *xState) bool {
+	if len(o.moved) != len(s.moved) {
+		return false
+	}
+	for k := range o.moved {
+		if !s.moved[k] {
+			return false
+		}
+	}
+	diff := map[string]int64{}
+	var g int64
+	cdiff := func(x, y *Lin) (int64, bool) { // y - x is a constant
+		d := y.Sub(x)
+		if !d.IsConst() {
+			return 0, false
+		}
+		return d.C, true
+	}
+	for k, v := range o.regs {
+		w := s.regs[k]
+		if (v == nil) != (w == nil) {
+			return false
+		}
+		if v == nil {
+			continue
+		}
+		c, ok := cdiff(v, w)
+		if !ok {
+			return false
+		}
+		if c != 0 {
+			diff[k] = c
+			g = gcd64(g, abs64(c))
+		}
+	}
+	for k, w := range s.regs {
+		if w != nil && o.regs[k] == nil {
+			return false
+		}
+	}
+	if g == 0 {
+		return false // identical registers: the ordinary join applies
+	}
+	var ca, cb int64
+	if (o.cmpA == nil) != (s.cmpA == nil) || (o.cmpB == nil) != (s.cmpB == nil) {
+		return false
+	}
+	if o.cmpA != nil && o.cmpB != nil {
+		var ok1, ok2 bool
+		ca, ok1 = cdiff(o.cmpA, s.cmpA)
+		cb, ok2 = cdiff(o.cmpB, s.cmpB)
+		if !ok1 || !ok2 || ca%g != 0 || cb%g != 0 {
+			return false
+		}
+	}
+	t := linTerm(a.fresh("j"), true)
+	// facts
+	var keep []Fact
+	seen := map[string]bool{}
+	add := func(f Fact) {
+		k := factStr(f)
+		if !seen[k] {
+			seen[k] = true
+			keep = append(keep, f)
+		}
+	}
+	for _, f := range o.facts { // holds at t = 0; E + kappa*t must hold at t = g under s
+		for _, kappa := range []int64{0, 1, -1} {
+			if ProveNonNeg(f.E.Add(linConst(kappa*g)), s.facts) {
+				add(Fact{E: f.E.Add(t.Scale(kappa))})
+				break
+			}
+		}
+	}
+	for _, f := range s.facts { // holds at t = g; E + kappa*(t - g) must hold at t = 0 under o
+		for _, kappa := range []int64{0, 1, -1} {
+			if ProveNonNeg(f.E.Add(linConst(-kappa*g)), o.facts) {
+				add(Fact{E: f.E.Add(t.Scale(kappa)).Add(linConst(-kappa * g))})
+				break
+			}
+		}
+	}
+	add(Fact{E: t})
+	add(Fact{E: linConst(g).Sub(t)})
+	for k, c := range diff {
+		o.regs[k] = o.regs[k].Add(t.Scale(c / g))
+	}
+	if o.cmpA != nil && o.cmpB != nil {
+		o.cmpA = o.cmpA.Add(t.Scale(ca / g))
+		o.cmpB = o.cmpB.Add(t.Scale(cb / g))
+	}
+	o.facts = keep
+	o.stored = append(o.stored, s.stored...)
+	if len(o.stored) > 96 {
+		o.stored = o.stored[len(o.stored)-96:]
+	}
+	for k, v := range s.scr {
+		if o.scr == nil {
+			o.scr = map[string][]uint8{}
+		}
+		if ov, ok := o.scr[k]; ok {
+			for i := range ov {
+				if i < len(v) && v[i] > ov[i] {
+					ov[i] = v[i]
+				}
+			}
+		} else {
+			o.scr[k] = append([]uint8(nil), v...)
+		}
+	}
+	return true
+}
+
+func abs64(a int64) int64 {
+	if a < 0 {
+		return -a
+	}
+	return a
 }
 
 // normalize drops registers that are dead at the entry of block `to`; a dying pointer into a streamed parameter ends a phase.
